@@ -15,7 +15,8 @@ import (
 
 // Expect is what the reference model says a Parse(+Dispatch) must produce.
 type Expect struct {
-	Unspec []string // non-empty: outside the specified territory
+	Unspec     []string // non-empty: outside the specified territory
+	UnspecVals []string // non-empty: option values / Called are unspecified, everything else is compared
 
 	Err        bool
 	ErrKind    string // ambiguous | missing-arg | dash-arg | convert | unknown | required | keyvalue
@@ -97,14 +98,16 @@ type specLevel struct {
 }
 
 type specProg struct {
-	def    *Def
-	root   *specLevel
-	levels []*specLevel
-	help   *specOpt
-	unspec map[string]bool
+	def        *Def
+	root       *specLevel
+	levels     []*specLevel
+	help       *specOpt
+	unspec     map[string]bool
+	unspecVals map[string]bool
 }
 
-func (sp *specProg) mark(z string) { sp.unspec[z] = true }
+func (sp *specProg) mark(z string)     { sp.unspec[z] = true }
+func (sp *specProg) markVals(z string) { sp.unspecVals[z] = true }
 
 // IsOptionLooking is the language-level notion: starts with a dash and is not the terminator.
 func IsOptionLooking(t string) bool {
@@ -112,7 +115,7 @@ func IsOptionLooking(t string) bool {
 }
 
 func newSpecProg(def *Def, env map[string]string) *specProg {
-	sp := &specProg{def: def, unspec: map[string]bool{}}
+	sp := &specProg{def: def, unspec: map[string]bool{}, unspecVals: map[string]bool{}}
 	var build func(cd *CmdDef, parent *specLevel) *specLevel
 	build = func(cd *CmdDef, parent *specLevel) *specLevel {
 		l := &specLevel{def: cd, parent: parent, keys: map[string]*specOpt{}, kids: map[string]*specLevel{}}
@@ -360,9 +363,6 @@ LOOP:
 						ex.Remaining = append(ex.Remaining, argv[tokIdx:]...)
 						break LOOP
 					}
-					if sp.def.Mode != 0 && !strings.HasPrefix(t, "--") {
-						sp.mark("U6x")
-					}
 					tokenUnknown = true
 					unkNames = append(unkNames, p.name)
 					continue
@@ -384,7 +384,7 @@ LOOP:
 					ex.Remaining = append(ex.Remaining, t)
 				}
 				if len(unkNames) != len(pairs) {
-					sp.mark("U6") // token mixes declared and undeclared letters
+					sp.markVals("U6") // token mixes declared and undeclared letters: whether the declared ones take effect is not stated
 				}
 			}
 			i++
@@ -478,6 +478,10 @@ LOOP:
 		ex.Unspec = append(ex.Unspec, z)
 	}
 	sort.Strings(ex.Unspec)
+	for z := range sp.unspecVals {
+		ex.UnspecVals = append(ex.UnspecVals, z)
+	}
+	sort.Strings(ex.UnspecVals)
 	return ex
 }
 
